@@ -1,38 +1,166 @@
-"""C15 role policy on the REAL protocol objects: with default options every frame a client writes has the MASK bit,
-carries the next key of the (pinned) key stream, one key per frame, payload = XOR with that key; every frame a server
-writes has no MASK bit and carries the payload verbatim."""
-import json, sys, random
+"""C15 role policy on the REAL protocol objects.
+
+"By default" = the application never mentions a masking option (applyMask, maskClientFrames, maskServerFrames,
+requireMaskedClientFrames).  Under every such configuration - the factory untouched, or setProtocolOptions() called
+once / several times with any of the OTHER options (each set to its current value, so behaviour-neutral) - and through
+every send API (sendMessage whole and fragmented, sendMessageFrame, the streaming API beginMessage/beginMessageFrame/
+sendMessageFrameData/endMessage, prepared messages with doNotCompress on and off, ping, pong, close):
+
+  client: every frame written has the MASK bit, carries the next key of the (pinned) key stream - one key per frame, in
+          wire order - and its payload octets are the plaintext XOR that key;
+  server: every frame written has no MASK bit, draws no key and carries the payload verbatim.
+
+Input : {"framework": "tx"|"aio", "seed": int, "sizes": [...]}
+Output: {"cases", "frames", "bad": [...], "configs": {...}, "apis": {...}, "optvec": [...]}
+"""
+import inspect, json, sys, random
 import wsdrv
+
+MASK_OPTS = ("applyMask", "maskClientFrames", "maskServerFrames", "requireMaskedClientFrames")
 
 inp = json.load(open(sys.argv[1]))
 env = wsdrv.Env(inp["framework"], key_seed=inp["seed"])
 rng = random.Random(inp["seed"])
 bad, n_frames, cases = [], 0, 0
+stats_cfg, stats_api = {}, {}
+optvec = []
+
+
+def neutral_options(role):
+    """every keyword of <role> factory.setProtocolOptions except the masking ones -> its CURRENT value on a fresh factory"""
+    c = env.connect(role)
+    sig = inspect.signature(c.factory.setProtocolOptions)
+    out = {}
+    for k in sig.parameters:
+        if k in MASK_OPTS or k in ("self",):
+            continue
+        if not hasattr(c.factory, k):
+            continue
+        out[k] = getattr(c.factory, k)
+    return out
+
+
+def configs(role):
+    """(name, [kwargs of successive setProtocolOptions calls]) - none of them mentions a masking option"""
+    neu = neutral_options(role)
+    keys = sorted(neu)
+    yield "untouched", []
+    yield "all-others-one-call", [dict(neu)]
+    half = len(keys) // 2
+    yield "two-calls", [{k: neu[k] for k in keys[:half]}, {k: neu[k] for k in keys[half:]}]
+    yield "empty-call", [{}]
+    for k in keys:
+        yield "single:" + k, [{k: neu[k]}]
+
+
+def chunks_of(b, n):
+    return [b[i:i + n] for i in range(0, len(b), n)] or [b""]
+
+
+def api_scripts(size, full):
+    """(name, fn(conn, payload) -> list of expected data payload concatenations) ; each sends ONE message of `size`"""
+    def whole(c, p): c.call("sendMessage", p, True)
+    def frag(n):
+        def f(c, p): c.call("sendMessage", p, True, fragmentSize=n)
+        return f
+    def text(c, p): c.call("sendMessage", bytes(65 + (b % 26) for b in p), False)
+    def frame_api(c, p):
+        c.call("beginMessage", True)
+        for ch in chunks_of(p, max(1, len(p) // 3)):
+            c.call("sendMessageFrame", ch)
+        c.call("endMessage")
+    def stream_api(c, p):
+        c.call("beginMessage", True)
+        for ch in chunks_of(p, max(1, len(p) // 2)):
+            c.call("beginMessageFrame", len(ch))
+            for d in chunks_of(ch, max(1, len(ch) // 2)):
+                c.call("sendMessageFrameData", d)
+        c.call("endMessage")
+    def prepared(dnc):
+        def f(c, p):
+            pm = c.factory.prepareMessage(p, True, doNotCompress=dnc)
+            c.call("sendPreparedMessage", pm)
+        return f
+    def prepared_default(c, p):
+        pm = c.factory.prepareMessage(p)
+        c.call("sendPreparedMessage", pm)
+    yield "sendMessage", whole
+    yield "prepared/doNotCompress=False", prepared(False)
+    yield "prepared/doNotCompress=True", prepared(True)
+    if full:
+        yield "sendMessage/text", text
+        for n in (1, 7, 126):
+            yield f"sendMessage/fragmentSize={n}", frag(n)
+        yield "sendMessageFrame", frame_api
+        yield "streaming", stream_api
+        yield "prepared/default-args", prepared_default
+
+
+def run_case(role, cfg_name, calls, api_name, fn, size):
+    global n_frames, cases
+    c = env.connect(role)
+    for kw in calls:
+        c.factory.setProtocolOptions(**kw)
+    c.handshake()
+    if not optvec or all(o["role"] != role or o["config"] != cfg_name for o in optvec):
+        if cfg_name in ("untouched", "all-others-one-call"):
+            optvec.append({"role": role, "config": cfg_name,
+                           "protocol": {k: repr(getattr(c.proto, k, "<absent>")) for k in MASK_OPTS}})
+    k0, n0 = len(env.keys.issued), len(c.log)
+    payload = rng.randbytes(size)
+    expect = payload if "text" not in api_name else bytes(65 + (b % 26) for b in payload)
+    fn(c, payload)
+    c.call("sendPing", b"pp")
+    c.call("sendPong", b"")
+    c.call("sendClose", 1000, "bye")
+    raised = [e for e in c.log[n0:] if e[0] == "raised"]
+    wire = b"".join(bytes.fromhex(e[1]) for e in c.log[n0:] if e[0] == "write")
+    try:
+        frames, rest = wsdrv.parse_frames(wire)
+        perr = None
+    except ValueError as e:
+        frames, rest, perr = [], wire, str(e)
+    cases += 1
+    stats_cfg[cfg_name.split(":")[0]] = stats_cfg.get(cfg_name.split(":")[0], 0) + 1
+    stats_api[api_name] = stats_api.get(api_name, 0) + 1
+    keys = [k.hex() for k in env.keys.issued[k0:]]
+    why = []
+    if perr or rest != b"":
+        why.append("wire is not a sequence of whole frames" + (f" ({perr})" if perr else ""))
+    if raised:
+        why.append(f"send API raised {raised[0][1]}")
+    data = b"".join(f["payload"] for f in frames if f["opcode"] in (0, 1, 2))
+    if data != expect:
+        why.append("data frames do not unmask to the plaintext sent")
+    ctl = [(f["opcode"], f["payload"]) for f in frames if f["opcode"] >= 8]
+    if ctl != [(9, b"pp"), (10, b""), (8, b"\x03\xe8bye")]:
+        why.append("control frames do not unmask to the plaintext sent")
+    if role == "client":
+        if not all(f["masked"] for f in frames):
+            why.append("client frame without MASK bit")
+        elif [f["mask"] for f in frames] != keys:
+            why.append("client frames do not carry one fresh key each, in wire order")
+    else:
+        if any(f["masked"] for f in frames):
+            why.append("server frame with MASK bit")
+        if keys:
+            why.append("server drew masking keys")
+    n_frames += len(frames)
+    if why and len(bad) < 8:
+        bad.append({"role": role, "config": cfg_name, "calls": [sorted(kw) for kw in calls], "api": api_name, "size": size,
+                    "why": why, "wire": wire.hex()[:400], "keys_drawn": keys[:8],
+                    "frames": [(f["opcode"], f["masked"], f["mask"], f["length"]) for f in frames][:12]})
+
+
+only = inp.get("only")          # replay: {"role", "config", "api", "size"}
 for role in ("client", "server"):
-    for size in inp["sizes"]:
-        for frag in (None, 1, 7, 126):
-            c = env.connect(role)
-            c.handshake()
-            k0 = len(env.keys.issued)
-            n0 = len(c.log)
-            payload = rng.randbytes(size)
-            ops = []
-            c.call("sendMessage", payload, True, fragmentSize=frag); ops.append("msg")
-            c.call("sendPing", b"pp"); ops.append("ping")
-            c.call("sendPong", b"")
-            wire = b"".join(bytes.fromhex(e[1]) for e in c.log[n0:] if e[0] == "write")
-            frames, rest = wsdrv.parse_frames(wire)
-            cases += 1
-            keys = [k.hex() for k in env.keys.issued[k0:]]
-            ok = rest == b""
-            data = b"".join(f["payload"] for f in frames if f["opcode"] in (0, 2))
-            ok = ok and data == payload
-            if role == "client":
-                ok = ok and all(f["masked"] for f in frames) and [f["mask"] for f in frames] == keys
-            else:
-                ok = ok and not any(f["masked"] for f in frames) and keys == []
-            n_frames += len(frames)
-            if not ok and len(bad) < 5:
-                bad.append({"role": role, "size": size, "fragmentSize": frag, "wire": wire.hex()[:400],
-                            "keys_drawn": keys, "frames": [(f["opcode"], f["masked"], f["mask"], f["length"]) for f in frames]})
-json.dump({"cases": cases, "frames": n_frames, "bad": bad}, open(sys.argv[2], "w"))
+    for cfg_name, calls in configs(role):
+        full = not cfg_name.startswith("single:")
+        sizes = inp["sizes"] if full else [5]
+        for size in sizes:
+            for api_name, fn in api_scripts(size, full):
+                if only and (role, cfg_name, api_name, size) != (only["role"], only["config"], only["api"], only["size"]):
+                    continue
+                run_case(role, cfg_name, calls, api_name, fn, size)
+json.dump({"cases": cases, "frames": n_frames, "bad": bad, "configs": stats_cfg, "apis": stats_api, "optvec": optvec},
+          open(sys.argv[2], "w"))
